@@ -70,3 +70,53 @@ def check_c01(c):
         what_tie="Writer/Reader vs Model/Writer.v + Model/Reader.v (byte-exact tables, scans, seeks, RefsFor)",
         rule="generated tables (see input_distribution); non-trivial = written successfully and > 200 bytes",
         nontrivial=nontrivial, assumptions=[])
+
+
+def check_c03(c):
+    generic(
+        c, "c03", ["Properties/C03.v"], ["Proofs/MergeProofs.v", "Proofs/BytesProofs.v"],
+        what_tie="NewMerged/Merged.SeekRef/SeekLog/RefsFor over real tables vs Model/Heap.v + Model/Merge.v + Model/Compact.v (on tables decoded by the model reader)",
+        rule=("stacks of 1..6 tables written by the real writer over a shared pool of 2..15 names (updates, deletions, re-creations, log entries and log deletions), "
+              "raw and deletion-suppressing view; queries: full scans, seeks at names and their neighbours, SeekLog at random indices, RefsFor for every object id and an absent one. "
+              "non-trivial = >= 2 tables"),
+        nontrivial=lambda cmd, args, impl: args.count("#") >= 1,
+        assumptions=["per-table seek/scan are those of the model reader (tied separately by C01/C02/C11); the merge is generic in the record type",
+                     "NewMerged's range / hash-id precondition is modelled as its error"])
+
+
+HIST_RULE = ("sequential histories of 3..12 operations on a real stack directory (one handle): Add of 0..3 refs (create/update/delete/symref/peeled) and 0..3 log records "
+             "(appends, several per ref, deletions of older entries), with or without auto-compaction; compactRange of arbitrary contiguous ranges; CompactAll; CompactAll with expiry; "
+             "all write configurations. After every operation: tables.list ranges, full ref scan, full log scan through Merged(). non-trivial = history contains a compaction or expiry, or a rejected transaction")
+
+
+def _hist_nontrivial(cmd, args, impl):
+    return "!C" in args or "!CA" in args or "!CE" in args or "rejected" in impl
+
+
+def check_c07(c):
+    generic(
+        c, "c07", ["Properties/C07.v"], ["Proofs/CompactProofs.v", "Proofs/MergeProofs.v"],
+        what_tie="Stack.Add / compactRange / CompactAll / AutoCompact vs Model/StackSeq.v (model writer + model reader + Compact.compact_range + Segments.suggest)",
+        rule=HIST_RULE, nontrivial=_hist_nontrivial,
+        assumptions=["theorems are at the level of decoded tables; writing the merged records and reading them back is the business of C01/C14 (tie: byte-exact model writer inside StackSeq)",
+                     "single handle, no interference (interleavings: C04)"])
+
+
+def check_c13(c):
+    generic(
+        c, "c13", ["Properties/C13.v"], ["Proofs/CompactProofs.v", "Proofs/ExpiryProofs.v"],
+        what_tie="CompactAll(expiry) vs Model/StackSeq.stack_compact_all / Compact.keep_log",
+        rule=HIST_RULE + "; every history ends with an expiry; limits unset / below / inside / above the data",
+        nontrivial=lambda cmd, args, impl: "CE:" in args,
+        assumptions=["as C07"])
+
+
+def check_c12(c):
+    generic(
+        c, "c12", ["Properties/C12.v"], ["Proofs/RefnameProofs.v"],
+        what_tie="Stack.Add with name checking vs Model/StackSeq.stack_add / Refname.validate_addition",
+        rule=("histories of 3..12 single-table transactions of 1..3 refs over a 14-name alphabet rich in prefix relations and illegal names "
+              "(a, a/b, a/b/c, a/c, ab, a., a/., b, b/a, a/.., a//b, c/, /c, d), creations, updates, deletions, delete-and-create in one transaction; "
+              "after each: accepted <=> the result is conflict-free (extracted conflict_free_b), live names conflict-free. non-trivial = at least one rejection"),
+        nontrivial=lambda cmd, args, impl: "rejected" in impl,
+        assumptions=["multi-table Additions are validated table by table against the view committed before the Addition (see known finding S5 / C12_addition_pinned_refuted); the tie covers single-table transactions through Stack.Add"])
